@@ -1,0 +1,30 @@
+//go:build verif
+
+package s2k
+
+// Contracts for govc (/verif). Comments only.
+
+// RFC 4880 section 3.7.1.3: count = (16 + (c & 15)) << ((c >> 4) + 6)
+//@ pred dc(c) = (16 + c % 16) * spec.pow2f(c / 16 + 6)
+
+//@ func decodeCount
+//@ props C20
+//@ pure
+//@ ensures result == dc(c)
+//@ canary ensures result == (16 + c % 16) * spec.pow2f(c / 16 + 5)
+
+//@ func encodeCount
+//@ props C20
+//@ pure
+//@ panics_when i < 1024 || i > 65011712
+//@ ensures dc(result) >= i
+//@ ensures forall(e, 0, result, dc(e) < i)
+//@ loop 1 invariant 0 <= encoded && encoded <= 256 && forall(e, 0, encoded, dc(e) < i)
+//@ canary ensures dc(result) == i
+
+//@ func (*Config).encodedCount
+//@ props C20
+//@ maynil
+//@ pure
+//@ ensures implies(c == nil || c.S2KCount == 0, result == 96)
+//@ ensures implies(c != nil && c.S2KCount != 0, dc(result) >= min(max(c.S2KCount, 1024), 65011712) && forall(e, 0, result, dc(e) < min(max(c.S2KCount, 1024), 65011712)))
